@@ -226,11 +226,18 @@ static std::vector<FuzzRec> read_fuzz(const std::string &path) {
     return v;
 }
 
-static void query_sweep(gr_face *f, Rng &r) {
+static void query_sweep(gr_face *f, Rng &r, const std::vector<uint8_t> &fontbytes) {
     std::string rep = face_report(f);
     (void)rep;
-    // absent / odd ids, NULL refs
-    static const uint32_t ids[] = {0, 1, 0x20, 0x20202020, 0xFFFFFFFFu, 0x6C616E67, 0x61626364, 0x7FFFFFFF};
+    // absent / odd ids, NULL refs; plus every feature id the font's own Feat table lists (lenient independent parse): hidden features
+    // are not enumerable through gr_face_fref but can be found by id and asked for labels
+    std::vector<uint32_t> ids = {0, 1, 0x20, 0x20202020, 0xFFFFFFFFu, 0x6C616E67, 0x61626364, 0x7FFFFFFF};
+    for (auto &e : sfnt_dir(fontbytes)) if (e.tag == 0x46656174u && e.len >= 12 && size_t(e.off) + e.len <= fontbytes.size()) {     // 'Feat'
+        const uint8_t *p = &fontbytes[e.off];
+        bool v2 = rd32(p) >= 0x20000;
+        unsigned n = rd16(p + 4), rec = v2 ? 16 : 12;
+        for (unsigned i = 0; i < n && i < 48 && 12 + rec * (i + 1) <= e.len; ++i) ids.push_back(v2 ? rd32(p + 12 + rec * i) : rd16(p + 12 + rec * i));
+    }
     for (uint32_t id : ids) {
         const gr_feature_ref *fr = gr_face_find_fref(f, id);
         gr_fref_id(fr); gr_fref_n_values(fr); gr_fref_value(fr, 0); gr_fref_value(fr, 0xFFFF);
@@ -526,7 +533,7 @@ int main(int argc, char **argv) {
             st.add("load_ok");
             if (m != base) st.add("mutated_font_loaded");
             long gets_at_make = mon.gets;
-            query_sweep(f, r);
+            query_sweep(f, r, m);
             shape_some(f, r, lines, rep, nshape);
             if (!use_file && (opt & gr_face_preloadAll) == gr_face_preloadAll && mon.gets != gets_at_make) {
                 if (judged("C16")) V(("table:get-after-make:" + mon.last_after_make_tag).c_str(), "%ld get_table call(s) after gr_make_face returned on a preloadAll face (last tag '%s')", mon.gets - gets_at_make, mon.last_after_make_tag.c_str());
